@@ -17,6 +17,12 @@ pub const MAX_CALLS_PER_TOKEN: f64 = 250.0;
 /// "pass calls per token").
 pub const MAX_PASS_CALLS_PER_TOKEN: f64 = 40.0;
 
+/// Upper bound on the number of diagnostics per token. The error path is work too (every
+/// diagnostic is collected from the tree and rendered with an excerpt of the source); on the
+/// pinned tree a rejected input never yields more diagnostics than it has tokens (see the evidence
+/// class "diagnostics per token").
+pub const MAX_DIAGS_PER_TOKEN: f64 = 3.0;
+
 fn thread_cpu_seconds() -> f64 {
     let mut ts = libc::timespec { tv_sec: 0, tv_nsec: 0 };
     // SAFETY: plain syscall writing into a local struct.
@@ -33,6 +39,8 @@ pub struct Measure {
     pub pass_calls: u64,
     pub cpu_s: f64,
     pub ok: bool,
+    /// Number of diagnostics returned (0 when the input is accepted).
+    pub diags: usize,
 }
 
 /// tokenize + parse `text`, returning the hook counter's delta and the CPU time.
@@ -41,7 +49,7 @@ pub fn measure(text: &str) -> Result<Measure, String> {
         let t0 = thread_cpu_seconds();
         let toks = match crate::tokenizer::tokenize(None, text) {
             Ok(t) => t,
-            Err(_) => return Measure { tokens: 0, calls: 0, pass_calls: 0, cpu_s: 0.0, ok: false },
+            Err(_) => return Measure { tokens: 0, calls: 0, pass_calls: 0, cpu_s: 0.0, ok: false, diags: 0 },
         };
         let before = crate::parser::VERIF_PARSE_CALLS.with(std::cell::Cell::get);
         let pass_before = crate::parser::VERIF_PASS_CALLS.with(std::cell::Cell::get);
@@ -49,11 +57,13 @@ pub fn measure(text: &str) -> Result<Measure, String> {
         let after = crate::parser::VERIF_PARSE_CALLS.with(std::cell::Cell::get);
         let pass_after = crate::parser::VERIF_PASS_CALLS.with(std::cell::Cell::get);
         // Render the diagnostics too, as the CLI would.
+        let mut diags = 0;
         if let Err(e) = &r {
             let _n: usize = e.iter().map(|x| x.message.len()).sum();
+            diags = e.len();
         }
         let t1 = thread_cpu_seconds();
-        Measure { tokens: toks.len(), calls: after - before, pass_calls: pass_after - pass_before, cpu_s: t1 - t0, ok: r.is_ok() }
+        Measure { tokens: toks.len(), calls: after - before, pass_calls: pass_after - pass_before, cpu_s: t1 - t0, ok: r.is_ok(), diags }
     })
 }
 
@@ -224,6 +234,20 @@ pub fn chain_nest_families() -> Vec<(String, Box<dyn Fn(usize) -> String + Send 
             }
         }
     }
+    // Closed groups nested in argument / operand / condition position, each with a stray token
+    // before its `)`: error recovery succeeds at every level, and the diagnostics of all levels
+    // are collected on the way out.
+    let stray: [(&str, &str, &str, &str, &str); 5] = [
+        ("application arguments", "f => ", "f (", "f 1", " else)"),
+        ("sum operands", "", "1 + (", "2", " then)"),
+        ("product operands", "", "2 * (", "3", " = )"),
+        ("conditions", "", "if (", "true", " : ) then 1 else 2"),
+        ("definitions", "", "(x = (", "1", " then); x)"),
+    ];
+    for (what, head, open, base, close) in stray {
+        let (head, open, base, close) = (head.to_owned(), open.to_owned(), base.to_owned(), close.to_owned());
+        out.push((format!("groups nested as {what}, each with a stray token before its closing bracket"), Box::new(move |n| format!("{head}{}{base}{}", open.repeat(n), close.repeat(n)))));
+    }
     out
 }
 
@@ -308,6 +332,17 @@ fn run_family(ctx: &Ctx, fam: usize, variant: usize, max_n: usize) {
             )));
             return;
         }
+        let diags_per_token = m.diags as f64 / m.tokens as f64;
+        if m.diags > 8 && diags_per_token > MAX_DIAGS_PER_TOKEN {
+            ctx.settle(Err(Failure::new(
+                format!("{} diagnostics for {} tokens ({diags_per_token:.0} per token; the bound is {MAX_DIAGS_PER_TOKEN})", m.diags, m.tokens),
+                label,
+            )));
+            return;
+        }
+        if m.diags > 0 {
+            ctx.class(&format!("diagnostics per token in [{:.1}, {:.1})", (diags_per_token * 2.0).floor() / 2.0, (diags_per_token * 2.0).floor() / 2.0 + 0.5));
+        }
         ctx.class(&format!("pass calls per token in [{}, {})", (pass_per_token / 5.0).floor() * 5.0, (pass_per_token / 5.0).floor() * 5.0 + 5.0));
         if let Some((pn, pm)) = &prev {
             // Linear work means a bounded number of calls per token. The constant depends on where
@@ -375,6 +410,9 @@ fn random_case(ctx: &Ctx, ch: &mut Ch) -> Outcome {
     if pass_per_token > MAX_PASS_CALLS_PER_TOKEN {
         return Err(Failure::new(format!("{} calls of the passes over the parsed term for {} tokens ({pass_per_token:.0} per token; the bound is {MAX_PASS_CALLS_PER_TOKEN})", m.pass_calls, m.tokens), text));
     }
+    if m.diags > 8 && m.diags as f64 / m.tokens as f64 > MAX_DIAGS_PER_TOKEN {
+        return Err(Failure::new(format!("{} diagnostics for {} tokens (the bound is {MAX_DIAGS_PER_TOKEN} per token)", m.diags, m.tokens), text));
+    }
     ctx.class(&format!("calls per token in [{}, {})", (per_token / 10.0).floor() * 10.0, (per_token / 10.0).floor() * 10.0 + 10.0));
     ctx.class(&format!("pass calls per token in [{}, {})", (pass_per_token / 5.0).floor() * 5.0, (pass_per_token / 5.0).floor() * 5.0 + 5.0));
     if m.tokens >= 100 {
@@ -389,7 +427,7 @@ pub fn def(tier: Tier) -> CheckDef {
     CheckDef {
         id: "C17",
         level: "exploration",
-        rule: "67 input families parameterised by n (nested parentheses, three-operand application / product / sum chains nested in their head, middle or last operand with the other operands parenthesised or not in all 36 combinations, groups nested in the head / middle / last position of application, product and sum chains, binder-looking prefixes, operator / application / arrow / negation chains, nested lambdas of three kinds, nested conditionals in each position, definition sequences, definitions sharing dependencies (the definition-order check walks them), nested groups, long tokens) x 5 variants (well-formed, second half dropped, closing brackets dropped, operator doubled, stray closing bracket), n doubling from 6 to 1536 (quick) / 6144 (thorough), plus proptest-generated random compositions with the same damages; oracle = the number of parsing-function calls (hook counter in cache_check!, hit or miss) stays below 250 per token, the number of calls of the passes that run over the parsed term afterwards (second hook counter: re-association, variable resolution, definition-order check) stays below 40 per token (about 4x the largest ratio observed on the pinned tree), and the per-token rate of parsing calls does not rise by more than 1.3x on two successive doublings for n >= 100; CPU time growing more than 12x on two successive doublings is also a violation; a hang is caught by the watchdog and attributed to the announced (family, variant, n); non-trivial = a (family, variant, n) triple with n >= 100 or a random composition of >= 100 tokens; distinct by label / text",
+        rule: "72 input families parameterised by n (nested parentheses, three-operand application / product / sum chains nested in their head, middle or last operand with the other operands parenthesised or not in all 36 combinations, closed groups nested in argument / operand / condition / definition position each with a stray token before its closing bracket, groups nested in the head / middle / last position of application, product and sum chains, binder-looking prefixes, operator / application / arrow / negation chains, nested lambdas of three kinds, nested conditionals in each position, definition sequences, definitions sharing dependencies (the definition-order check walks them), nested groups, long tokens) x 5 variants (well-formed, second half dropped, closing brackets dropped, operator doubled, stray closing bracket), n doubling from 6 to 1536 (quick) / 6144 (thorough), plus proptest-generated random compositions with the same damages; oracle = the number of parsing-function calls (hook counter in cache_check!, hit or miss) stays below 250 per token, the number of calls of the passes that run over the parsed term afterwards (second hook counter: re-association, variable resolution, definition-order check) stays below 40 per token (about 4x the largest ratio observed on the pinned tree), the number of diagnostics returned stays below 3 per token (the error path is work as well; never above 1 per token on the pinned tree), and the per-token rate of parsing calls does not rise by more than 1.3x on two successive doublings for n >= 100; CPU time growing more than 12x on two successive doublings is also a violation; a hang is caught by the watchdog and attributed to the announced (family, variant, n); non-trivial = a (family, variant, n) triple with n >= 100 or a random composition of >= 100 tokens; distinct by label / text",
         assumptions: vec![
             "work is measured by the hook counter (deterministic), CPU time only as a coarse second gate",
             "the constant 250 calls per token was calibrated on the pinned tree as about 4x the largest observed ratio",
